@@ -537,3 +537,23 @@ func HostileForC14(run *vk.Run) {
 	})
 	run.Add("hostile_plugin_conversations", len(cases))
 }
+
+// ScriptedRecipient returns a plugin recipient (plugin "vscript") whose plugin plays the given script of message
+// symbols of Plugin.tla (e.g. "rs_ok", "error", "done"). For checks of other properties that need a real plugin
+// recipient in a recipient list; dir is what Setup returned.
+func ScriptedRecipient(dir string, script []string) (age.Recipient, error) {
+	id := fmt.Sprintf("x%d", atomic.AddInt64(&counter, 1))
+	var steps []step
+	for _, m := range script {
+		if m == "eof" {
+			continue
+		}
+		t, exp := msgText(m)
+		steps = append(steps, step{Send: t, Expect: exp})
+	}
+	b, _ := json.Marshal(steps)
+	if err := os.WriteFile(filepath.Join(dir, "scripts", id+".json"), b, 0o644); err != nil {
+		return nil, err
+	}
+	return plugin.NewRecipient(plugin.EncodeRecipient("vscript", []byte(id)), &plugin.ClientUI{})
+}
